@@ -140,22 +140,20 @@ Definition lit_part (s : text) : fpart :=
 
 Definition is_nil {A} (l : list A) : bool := match l with [] => true | _ => false end.
 
-(* the f-string part that hy-repr's text for a component denotes *)
-Fixpoint part_of (m : model) : fpart :=
+(* the f-string part that hy-repr's text for a component denotes; [insp]: the component stands in a format spec,
+   where a String is printed as it is *)
+Fixpoint part_of (insp : bool) (m : model) : fpart :=
   match m with
   | MNode (KFComp conv _) (x0 :: specl) =>
       let hs := negb (is_nil specl) in
-      PField [] x0 (mrepr W x0)
+      let t := mrepr W x0 in
+      PField (if starts_with [c_lc] t then [ch_space] else []) x0 t
              (match conv with Some _ => [ch_space] | None => if hs then [ch_space] else [] end)
              None
              (match conv with Some c => Some (c, if hs then [ch_space] else []) | None => None end)
              hs
-             (match specl with
-              | [MStr sp _] => [PLit sp sp sp]
-              | [c2] => [part_of c2]
-              | _ => []
-              end)
-  | MStr s _ => lit_part s
+             (map (part_of true) specl)
+  | MStr s _ => if insp then PLit s s s else lit_part s
   | _ => PLit [] [] []
   end.
 
